@@ -13,7 +13,7 @@ RULE = (
     "annotators (categorize, tag, split_url_events, period_union, flood, simplify) x optional corruption making it raise midway (unknown function / wrong argument "
     "type / undefined variable placed after an annotator has run on the direct result of query_bucket) x query window (any UTC offsets, sub-ms edges, zero width; edges biased to within +-3 ms of the instants where stored events start or end). "
     "Oracle: API dump of every bucket before == after, whether the query returned or raised; RETURN=query_bucket(b) - alone and appended to the generated program, i.e. after its annotators ran in the same query - equals ds[b].get(starttime=S,endtime=E) event "
-    "for event and query_bucket_eventcount(b) equals ds[b].get_eventcount(S,E) with S/E the instants handed to query(). "
+    "for event and query_bucket_eventcount(b) equals ds[b].get_eventcount(S,E) with S/E the instants handed to query(); in half the cases an older event of each bucket is then rewritten, re-timed or exchanged (size and newest event unchanged) and the very same queries must again equal the direct reads. "
     "Non-trivial = the program applies an in-place annotator to the direct result of query_bucket, or raises after having done so."
 )
 ASSUMPTIONS = ["a failing query may raise anything; only the store's contents are judged", "about one window in eight has its end before its start (the comparison with the direct read applies all the same)", "the present, as seen by the query modules through their `datetime` name, is pinned inside the range of the stored events"]
@@ -57,6 +57,7 @@ def strategy(draw, tier="quick"):
         "qb": draw(st.integers(0, 1)),
         "inverted": draw(st.integers(0, 7)) == 0,
         "now_s": draw(st.sampled_from([10, 10, 5, 15, 100000])),
+        "edit": draw(st.one_of(st.none(), st.integers(0, 11))),
     }
 
 
@@ -151,6 +152,32 @@ def run_case(case):
         with sut(f"{be}: final dump"):
             if stores.api_dump(ds) != before:
                 raise Violation(f"{be}: store changed by query_bucket reads")
+        if case.get("edit") is not None:
+            # the store moves on between two runs of the very same query (same name, text and window): an older event is rewritten,
+            # re-timed or exchanged for another one - the bucket's size and its newest event stay as they were
+            from datetime import timedelta
+
+            k = case["edit"]
+            for b in BUCKETS:
+                with sut(f"{be}: editing an older event of {b}"):
+                    evs = ds[b].get(limit=-1)
+                    if len(evs) < 2:
+                        continue
+                    victim = evs[1 + k % (len(evs) - 1)]
+                    if k % 3 == 0:
+                        ds[b].replace(victim.id, Event(timestamp=victim.timestamp, duration=victim.duration + timedelta(seconds=1), data={"app": "edited", "title": "edited"}))
+                    elif k % 3 == 1:
+                        ds[b].replace(victim.id, Event(timestamp=victim.timestamp - timedelta(seconds=1000), duration=victim.duration, data=victim.data))
+                    else:
+                        ds[b].delete(victim.id)
+                        ds[b].insert(Event(timestamp=victim.timestamp - timedelta(seconds=2000), duration=timedelta(seconds=1), data={"app": "exchanged"}))
+                    direct = [stores.ev_tuple(e) for e in ds[b].get(starttime=S, endtime=E)]
+                    dcount = ds[b].get_eventcount(starttime=S, endtime=E)
+                with sut(f"{be}: the same query again after the edit"):
+                    got = [stores.ev_tuple(e) for e in query("q", f'RETURN = query_bucket("{b}");', S, E, ds)]
+                    gcount = query("q", f"x = 1; RETURN = query_bucket_eventcount('{b}')", S, E, ds)
+                if got != direct or gcount != dcount:
+                    raise Violation(f"{be}: after an older event of {b!r} was edited (kind {k % 3}), the same query as before returns {got} (count {gcount}); direct windowed read = {direct} (count {dcount})")
     direct_annot = _annotates_direct(case["prog"]) or bool(case["corrupt"])
     classes = [be, "raised" if raised else "returned"]
     if case["corrupt"]:
